@@ -7,6 +7,7 @@
 #include <tao/pegtl.hpp>
 
 #include <cstring>
+#include <cxxabi.h>
 #include <exception>
 #include <stdexcept>
 #include <typeindex>
@@ -132,6 +133,24 @@ namespace vf
       std::uint64_t failed_after_consuming_optional_left = 0;  // failure under optional that left the cursor advanced (legal)
       std::uint64_t unwinds = 0, vetoes = 0, raises = 0, discarded_events = 0, apply_calls = 0, lookahead_frames = 0;
       std::uint64_t eol_observations = 0, position_observations = 0;
+      std::uint64_t hook_bumps = 0, hook_peeks = 0, boundary_touches = 0;
+
+      void window_violation( const char* what, std::size_t amount, std::size_t avail ) noexcept
+      {
+         // called from a noexcept hook: only record
+         if( aborted || window_flagged ) {
+            return;
+         }
+         window_flagged = true;
+         window_what = what;
+         window_amount = amount;
+         window_avail = avail;
+         window_frame = stack.empty() ? std::type_index( typeid( void ) ) : stack.back().ti;
+      }
+      bool window_flagged = false;
+      const char* window_what = "";
+      std::size_t window_amount = 0, window_avail = 0;
+      std::type_index window_frame = std::type_index( typeid( void ) );
 
       void reset()
       {
@@ -144,6 +163,8 @@ namespace vf
          failed_after_consuming_required = failed_after_consuming_optional_left = 0;
          unwinds = vetoes = raises = discarded_events = apply_calls = lookahead_frames = 0;
          eol_observations = position_observations = 0;
+         hook_bumps = hook_peeks = boundary_touches = 0;
+         window_flagged = false;
       }
 
       void flag( const char* prop, const std::string& sig, const std::string& detail )
@@ -219,6 +240,43 @@ namespace vf
       static monitor m;
       return m;
    }
+
+#if defined( TAO_PEGTL_VERIF )
+   // window hook (guarded instrumentation in /repo): high-water mark of the cursor inside the open
+   // frame, and detection of reads / consumption beyond the window [current, end) of the input.
+   inline void window_cb( pegtl::verif::window_event kind, const char* current, std::size_t amount, const char* end ) noexcept
+   {
+      monitor& m = mon();
+      const std::size_t avail = std::size_t( end - current );
+      if( kind == pegtl::verif::window_event::bump ) {
+         ++m.hook_bumps;
+         if( !m.stack.empty() && current + amount > m.stack.back().hi ) {
+            m.stack.back().hi = current + amount;
+         }
+         if( amount > avail || end < current ) {
+            m.window_violation( "bump", amount, avail );
+         }
+         if( amount == avail && amount > 0 ) {
+            ++m.boundary_touches;
+         }
+      }
+      else {
+         ++m.hook_peeks;
+         if( amount >= avail || end < current ) {
+            m.window_violation( "peek", amount, avail );
+         }
+         if( amount + 1 == avail ) {
+            ++m.boundary_touches;
+         }
+      }
+   }
+   inline void install_window_hook()
+   {
+      pegtl::verif::window_hook() = &window_cb;
+   }
+#else
+   inline void install_window_hook() {}
+#endif
 
    template< typename Rule >
    const std::string& rule_name()
@@ -912,6 +970,24 @@ namespace vf
       std::string other_what;
    };
 
+   inline std::string demangled( const std::type_index& ti )
+   {
+      int st = 0;
+      char* d = abi::__cxa_demangle( ti.name(), nullptr, nullptr, &st );
+      std::string r = ( st == 0 && d ) ? d : ti.name();
+      std::free( d );
+      return r;
+   }
+
+   inline void finish_window_check()
+   {
+      monitor& m = mon();
+      if( m.window_flagged && !m.aborted ) {
+         const std::string fr = demangled( m.window_frame );
+         m.flag( "C03", std::string( "window:" ) + m.window_what + ":" + family( fr ), std::string( m.window_what ) + " of " + std::to_string( m.window_amount ) + " with only " + std::to_string( m.window_avail ) + " bytes available in the input window, inside " + fr );
+      }
+   }
+
    template< typename Top,
              template< typename... >
              class Action,
@@ -971,6 +1047,7 @@ namespace vf
          r.other_what = e.what();
       }
       r.end = m.off( in.current() );
+      finish_window_check();
       if( !m.aborted && !m.stack.empty() ) {
          m.flag( "C08", "frames-left-open", "rule attempts still open after parse() returned" );
       }
